@@ -535,11 +535,72 @@ func runMultiAsset[T maNum](rt *rapid.T, rec *evi.Recorder, kind string) {
 	if !dec.Compare(A) || !A.Compare(dec) {
 		fail("decode-vs-constructed", fmt.Sprintf("decode(%x) does not compare equal to the constructed value %s", henc, A.String()))
 	}
+
+	// -- decoded values inside the algebra ------------------------------------------
+	// A decoded value is "an equal value": it must behave like the constructed one as
+	// the receiver and as the operand of Add (also when pruning left nothing).
+	if !overflow {
+		rec.Eval()
+		if len(ra) == 0 {
+			rec.Class("decoded_empty_in_add")
+		}
+		safely := func(key, what string, f func()) {
+			defer func() {
+				if r := recover(); r != nil {
+					fail(key+":panic", fmt.Sprintf("%s panicked: %v", what, r))
+				}
+			}()
+			f()
+		}
+		decodedCopies := func() []*common.MultiAsset[T] {
+			var out []*common.MultiAsset[T]
+			d1 := new(common.MultiAsset[T])
+			if _, err := cbor.Decode(enc1, d1); err == nil {
+				out = append(out, d1)
+			}
+			if d2, _, err := buildDecoded[T](a, indef, tagged); err == nil {
+				out = append(out, d2)
+			}
+			return out
+		}
+		for i, d := range decodedCopies() {
+			src := []string{"decode(encode(a))", "decode(harness encoding of a)"}[i]
+			safely("decoded-receiver-add", src+".Add(b)", func() {
+				d.Add(mk(b))
+				if od, _ := observe(d); !od.equal(ra.add(rb)) {
+					fail("decoded-receiver-add-vs-reference", fmt.Sprintf("%s then Add(b) reads %s, per-asset integer addition gives %s", src, od, ra.add(rb)))
+				}
+				d.Add(mk(c))
+				if od, _ := observe(d); !od.equal(ra.add(rb).add(rc)) {
+					fail("decoded-receiver-add-vs-reference", fmt.Sprintf("%s then Add(b), Add(c) reads %s want %s", src, od, ra.add(rb).add(rc)))
+				}
+			})
+		}
+		for i, d := range decodedCopies() {
+			src := []string{"decode(encode(a))", "decode(harness encoding of a)"}[i]
+			safely("decoded-operand-add", "b.Add("+src+")", func() {
+				x := mk(b)
+				x.Add(d)
+				x.Add(d)
+				if ox, _ := observe(x); !ox.equal(rb.add(ra).add(ra)) {
+					fail("decoded-operand-add-vs-reference", fmt.Sprintf("b + %s twice reads %s want %s", src, ox, rb.add(ra).add(ra)))
+				}
+				if od, _ := observe(d); !od.equal(ra) {
+					fail("add-mutates-operand:decoded", fmt.Sprintf("after b.Add(%s) the decoded operand reads %s, was %s", src, od, ra))
+				}
+				y := mk(nil)
+				y.Add(d)
+				if !y.Compare(A) || !A.Compare(y) {
+					fail("decoded-operand-add-vs-reference", fmt.Sprintf("empty + %s does not compare equal to a", src))
+				}
+			})
+		}
+	}
 }
 
 func TestC06(t *testing.T) {
 	rec := evi.New(t, "C06", evi.Exploration,
-		"triples (a,b,c) of multi-asset values over a shared universe of 4 policies x 7 asset names (empty, 1-byte, 24-byte, 32-byte names) so operands collide; quantities from {0,+-1,+-5,+-2^63,2^63-1,2^64-1,+-2^64,+-2^70} or uniform up to 80 bits for *big.Int, in-range values for int64/uint64; b is frequently a reordered copy of a padded with explicit zero entries and c frequently -b; values are built through NewMultiAsset (two insertion orders) and by decoding the harness's own unsorted / indefinite-length / bignum-tagged CBOR. Oracle = reference map (policy,name)->big integer with zeros dropped: Compare vs reference equality, reflexive/symmetric/transitive, Add commutative/associative/identity/no operand mutation/equal to per-asset integer addition, accessors, deterministic canonical encoding (strictly ascending bytewise keys, minimal heads) independent of insertion order, decode(encode(x)) equal to x with no zero entry exposed. non-trivial = operands share a key or a spec contains an explicit zero; distinct by the three specs")
+		"triples (a,b,c) of multi-asset values over a shared universe of 4 policies x 7 asset names (empty, 1-byte, 24-byte, 32-byte names) so operands collide; quantities from {0,+-1,+-5,+-2^63,2^63-1,2^64-1,+-2^64,+-2^70} or uniform up to 80 bits for *big.Int, in-range values for int64/uint64; b is frequently a reordered copy of a padded with explicit zero entries and c frequently -b; values are built through NewMultiAsset (two insertion orders) and by decoding the harness's own unsorted / indefinite-length / bignum-tagged CBOR. Oracle = reference map (policy,name)->big integer with zeros dropped: Compare vs reference equality, reflexive/symmetric/transitive, Add commutative/associative/identity/no operand mutation/equal to per-asset integer addition, accessors, deterministic canonical encoding (strictly ascending bytewise keys, minimal heads) independent of insertion order, decode(encode(x)) equal to x with no zero entry exposed, and decoded values (also those where pruning left nothing) used as receiver and as operand of Add agree with the reference. non-trivial = operands share a key or a spec contains an explicit zero; distinct by the three specs")
 	defer rec.Finish()
 	rec.Assume("for the int64/uint64 instantiations sums stay inside +-2^62 (the ledger only instantiates *big.Int; machine-type overflow is outside the statement)")
 	rec.Check(func(rt *rapid.T) {
